@@ -167,6 +167,7 @@ ShapeSpartan(line) ==
     /\ CountCh(s, " ") = 2
     /\ SpSecond(s) # SpFirst(s) + 1             \* no empty middle part (the ends are non-empty after strip)
     /\ IsDigitString(After(s, LastPos(s, " ")))
+    /\ ~TX!StartsWith(s, "/")                    \* a host name never starts with a slash (a Gopher selector does)
 \* doc/standards/Gopher+.txt 2.3/2.5/2.6 and appendix: "selector TAB +[representation]", "selector TAB !",
 \* "selector TAB $", and for searches "selector TAB words TAB +..."; gopherp.py docstring: "more than one
 \* parameter in the request list; the [last] parameter is ! or starts with + or $" (at most three parameters).
@@ -245,7 +246,8 @@ ClaimsGemini(px) == YesNo(px.tls /\ PyPrefix(px.line, 9) = "gemini://")
 ClaimsSpartan(px) ==
     IF px.tls THEN "no"
     ELSE IF ~px.ascii THEN "no"                                     \* request.encode("ascii") raises
-    ELSE YesNo(Len(px.parts) = 3 /\ (\A i \in 1..3 : px.parts[i] # "") /\ IsDigitString(px.parts[3]))
+    ELSE YesNo(Len(px.parts) = 3 /\ (\A i \in 1..3 : px.parts[i] # "") /\ IsDigitString(px.parts[3])
+               /\ ~TX!StartsWith(px.parts[1], "/"))                \* not parts[0].startswith("/")  [c3ed498]
 \* gopherp.py:15-36.  NAMED DEVIATION EmptyPlusFieldRaises (switched OFF since /repo commit 6a019e8): the pinned
 \* snapshot evaluated gopherpstring[0] on an empty string (request "sel<TAB><CR><LF>") and raised IndexError; the
 \* repaired code (startswith) answers "no".  The switch is kept so that the defect can be modelled again if it is
